@@ -438,8 +438,79 @@ def job_history(cfg):
     return res
 
 
+def job_history_mixed(cfg):
+    """history field on a mesh with two element groups (QUAD4 + TRI3): load with a symbolic amplitude, save, unload, and the driving energy of
+    EVERY group must stay at its stored value (the source term of the damage problem does not decrease)"""
+    from EasyFEA import Models, Simulations
+
+    res = JobResult(cfg)
+    c = new_context()
+    facade.install()
+    key = "history field on a mixed QUAD4 + TRI3 mesh (Bourdin, solver History)"
+    res.functions |= {"Simulations.PhaseField.__Calc_psiPlus_e_pg", "Simulations.PhaseField.__Construct_Damage_Matrix", "Simulations.PhaseField.Save_Iter", "Simulations.PhaseField.Get_K_C_M_F", "PhaseField.Get_f_e_pg"}
+    X = np.array([[0, 0, 0], [1, 0, 0], [1, 1, 0], [0, 1, 0], [2, 0.5, 0]], dtype=float)
+    mesh = simlib.mesh_from_arrays([("QUAD4", [[0, 1, 2, 3]]), ("TRI3", [[1, 4, 2]]), ("SEG2", [[0, 1], [1, 4], [4, 2], [2, 3], [3, 0]])], X)
+    mat = make_material("iso-strain")
+    pfm = Models.PhaseField(mat, "Bourdin", "AT2", Gc=1.0, l0=0.1, solver="History")
+    t = c.var("amplitude", -1, 1, shadow=Fraction(1, 2))
+    t2 = c.var("amplitude2", -1, 1, shadow=Fraction(1, 4))
+    res.symbols = 2
+    uhat = np.array([Fraction(k % 7 - 3, 32) for k in range(3, 3 + 2 * mesh.Nn)], dtype=object)
+
+    def run(amp1, amp2, symbolic):
+        s2 = Simulations.PhaseField(mesh, pfm, verbosity=False)
+        s2._PhaseField__Niter, s2._PhaseField__timeIter, s2._PhaseField__convIter = 0, 0.0, 0.0
+        F = []
+        for amp in (amp1, amp2):
+            u = uhat * amp if symbolic else np.array([float(x) for x in uhat]) * amp
+            s2._Set_solutions(s2.ProblemTypes.elastic, u)
+            s2.Need_Update()
+            Fd = s2.Get_K_C_M_F(s2.ProblemTypes.damage)[3]
+            F.append(np.asarray(Fd.a if isinstance(Fd, facade.SymMatrix) else Fd.toarray(), dtype=object).reshape(-1))
+            s2.Save_Iter()
+        return F
+
+    def body(k):
+        with facade.symbolic():
+            return {"F": run(t, t2, True)}
+
+    regions, status = paths.explore(body, [t, t2], max_regions=40, label=f"{key} coverage",
+                                    first_shadows=[{_vid(t): Fraction(1, 2), _vid(t2): Fraction(1, 4)}, {_vid(t): Fraction(1, 4), _vid(t2): Fraction(1, 2)}, {_vid(t): Fraction(1, 2), _vid(t2): 0}, {_vid(t): 0, _vid(t2): 0}])
+    res.paths = len(regions)
+
+    def replay(env):
+        full = {kk: float(v) for kk, v in {**c.shadow, **(env or {})}.items()}
+        a1, a2 = full[_vid(t)], full[_vid(t2)]
+        F = run(a1, a2, False)
+        F1, F2 = np.asarray(F[0], dtype=float), np.asarray(F[1], dtype=float)
+        return bool((F2 < F1 - 1e-10).any()), {"amplitude_step1": a1, "amplitude_step2": a2, "damage_source_step1": F1.tolist(), "damage_source_step2": F2.tolist()}
+
+    if status.startswith("covered"):
+        res.held(f"{key}: {len(regions)} regions cover the two load amplitudes", how="exact")
+    else:
+        res.record(f"{key}: regions cover the amplitudes", Outcome("inconclusive", how="exact", detail=status), None, key=f"{key} coverage")
+    for r in regions:
+        paths.reshadow(c, r.shadow)
+        pcs = list(r.pcs) + list(c.side) + list(c.domain_conds())
+        F1, F2 = r.result["F"]
+        worst = None
+        for i in range(len(F1)):
+            d = as_sym(F2[i]) - as_sym(F1[i])
+            if d.n.is_zero():
+                continue
+            o = prove_cond(Cond(d.n, ">=", "source term does not decrease"), pcs, f"{key} node {i}")
+            if o.status != "held":
+                worst = o
+                break
+        res.record(f"{key} region {r.index}: the nodal source term of the damage problem (2 psi+ history, both groups) does not decrease from step 1 to step 2", worst or Outcome("held", how="exact"), replay,
+                   key="history mixed mesh: source term monotone")
+    res.twin(f"{key} twin", len(regions) >= 2)
+    res.stubs |= facade.USED_STUBS
+    return res
+
+
 def job(cfg):
-    return {"split": job_split, "regu": job_regularisation, "history": job_history}[cfg["kind"]](cfg)
+    return {"split": job_split, "regu": job_regularisation, "history": job_history, "history_mixed": job_history_mixed}[cfg["kind"]](cfg)
 
 
 def main():
@@ -462,6 +533,7 @@ def main():
     # the history update (elementwise maximum with the stored field) does not depend on the split: the polynomial psi+ of Bourdin keeps the
     # region enumeration of three successive states within reach (Amor / Miehe: more than 40 regions, cover not closed in the budget)
     configs.append({"kind": "history", "split": "Bourdin"})
+    configs.append({"kind": "history_mixed"})
     results = harness.run_jobs(job, configs)
     harness.finish(
         PID, results, t0=t0,
